@@ -495,7 +495,7 @@ AlphaOf(id) ==
   CASE id = "exec" -> AlphaExec [] id = "sdl" -> AlphaSdl [] id = "vardefs" -> AlphaVarDefs [] id = "fielddef" -> AlphaFieldDef
     [] id = "value" -> AlphaValue [] id = "sel" -> AlphaSel
 RunsM        == {<<"exec", "Doc", 6, 2>>, <<"sdl", "SDoc", 5, 2>>, <<"vardefs", "VarDefsOpt", 8, 0>>, <<"value", "Value", 4, 0>>}
-RunsQuick    == {<<"exec", "Doc", 8, 2>>, <<"sdl", "SDoc", 7, 2>>, <<"vardefs", "VarDefsOpt", 12, 0>>, <<"fielddef", "FieldDef", 10, 0>>,
+RunsQuick    == {<<"exec", "Doc", 8, 2>>, <<"sdl", "SDoc", 6, 2>>, <<"vardefs", "VarDefsOpt", 12, 0>>, <<"fielddef", "FieldDef", 10, 0>>,
                  <<"value", "Value", 5, 0>>, <<"sel", "Selection", 8, 0>>}
 RunsThorough == {<<"exec", "Doc", 10, 2>>, <<"sdl", "SDoc", 8, 2>>, <<"vardefs", "VarDefsOpt", 14, 0>>, <<"fielddef", "FieldDef", 12, 0>>,
                  <<"value", "Value", 6, 0>>, <<"sel", "Selection", 9, 0>>}
